@@ -12,6 +12,7 @@ import (
 	"runtime"
 	"strings"
 	"sync"
+	"sync/atomic"
 	"time"
 
 	"github.com/alephium/wormhole-fork/node/cmd/guardiand"
@@ -24,6 +25,7 @@ import (
 )
 
 var r *vlib.Run
+var blockedSeqs int32
 
 // hclock is the library's mock clock; it only remembers the tickers the dispatcher creates so that the harness can
 // wait until a tick that fell due has been taken (any use of the clock - Ticker, Reset, Stop, Timer, After, Now -
@@ -91,6 +93,12 @@ func main() {
 	nSeq := r.Pick(500, 20000)
 	for s := 0; s < nSeq; s++ {
 		runSeq(rng, s)
+		if atomic.LoadInt32(&blockedSeqs) >= 3 {
+			// a dispatcher that blocks costs a 5 s watchdog per sequence: three witnesses are enough, the verdict is
+			// a violation already and the remaining sequences would only repeat it
+			r.Count("sequences_skipped_after_repeated_blocking", int64(nSeq-s-1))
+			break
+		}
 	}
 	// PostObservationRequest on a full queue must fail immediately
 	for _, capN := range []int{0, 1, 3, common.ObsvReqChannelSize} {
@@ -321,6 +329,9 @@ func runSeq(rng *rand.Rand, sIdx int) {
 			}
 			trace = append(trace, fmt.Sprintf("drain(chain=%d,%d)", c, k))
 		}
+	}
+	if blocked {
+		atomic.AddInt32(&blockedSeqs, 1)
 	}
 	r.Distinct("sequences", layout+strings.Join(trace, ";"))
 	if sIdx < 2 {
